@@ -207,7 +207,16 @@ func (r Rule) Apply(facts *FactSet, newFacts *FactSet, syms *SymbolTable) error 
 		}
 	}
 
-	combinations := combine(variables, r.Body, r.Expressions, facts, syms)
+	stop := make(chan struct{})
+	combinations := combine(variables, r.Body, r.Expressions, facts, syms, stop)
+	// on an early return the producer may still be blocked in (or heading for) a send:
+	// tell it to stop and wait until it has closed the channel, so that no goroutine
+	// of this call outlives it
+	defer func() {
+		close(stop)
+		for range combinations {
+		}
+	}()
 
 	for res := range combinations {
 		if res.error != nil {
@@ -491,7 +500,7 @@ func (m MatchedVariables) Clone() MatchedVariables {
 	return res
 }
 
-func combine(variables MatchedVariables, predicates []Predicate, expressions []Expression, facts *FactSet, syms *SymbolTable) <-chan struct {
+func combine(variables MatchedVariables, predicates []Predicate, expressions []Expression, facts *FactSet, syms *SymbolTable, stop <-chan struct{}) <-chan struct {
 	MatchedVariables
 	error
 } {
@@ -577,10 +586,13 @@ func combine(variables MatchedVariables, predicates []Predicate, expressions []E
 						if err != nil {
 							fmt.Printf("expression error: %+v", err)
 							verifPoint("combine.send")
-							c <- struct {
+							select {
+							case c <- struct {
 								MatchedVariables
 								error
-							}{complete_vars, err}
+							}{complete_vars, err}:
+							case <-stop:
+							}
 
 							return
 						}
@@ -593,10 +605,14 @@ func combine(variables MatchedVariables, predicates []Predicate, expressions []E
 					if valid {
 						//fmt.Printf("sending valid variables %+v\n", complete_vars)
 						verifPoint("combine.send")
-						c <- struct {
+						select {
+						case c <- struct {
 							MatchedVariables
 							error
-						}{complete_vars, nil}
+						}{complete_vars, nil}:
+						case <-stop:
+							return
+						}
 					}
 				} else {
 					// if all predicates match but variables are not complete, it means
